@@ -257,6 +257,10 @@ func (w *World) pickG(en []*simrt.G) *simrt.G {
 	return best
 }
 
+// Rest waits until every goroutine is blocked or parked, without scheduling
+// anything.
+func (w *World) Rest() { synctest.Wait() }
+
 // Settle runs the system to quiescence: all goroutines durably blocked and, in
 // yield mode, none parked at a scheduling point that can proceed.
 func (w *World) Settle() {
